@@ -35,7 +35,9 @@ P = MODEL_PARAMS[0]
 LINK_PARAMS = ("N", "lam", "L", "rho_max", "rho_crit", "v_free", "a", "turnrate")
 
 OPS_A = ([("step", e, j, o) for e in ("numpy", "SX", "MX") for j in (0, 1) for o in (0, 1)]
-         + [("feedback", o) for o in (0, 1)] + [("tofun", 0), ("tofun", 2)])
+         + [("feedback", o) for o in (0, 1)] + [("tofun", 0), ("tofun", 2)]
+         # value set 2 = no init_conditions at all: the engine creates the symbols itself
+         + [("step", e, 2, o) for e in ("SX", "MX") for o in (0, 1)])
 OPS_B = [("step", "numpy", j, o) for j in (0, 1) for o in (0, 1)] + [("feedback", o) for o in (0, 1)]
 
 
@@ -78,10 +80,10 @@ def param_diff(built, snap):
 class Session:
     """One history: fresh network objects, caller-held inputs for both value sets."""
 
-    def __init__(self, spec: NetSpec, family: str):
+    def __init__(self, spec: NetSpec, family: str, order=None):
         self.spec = spec
         self.family = family
-        self.built = build(spec, override=array_params(spec) if family == "B" else None)
+        self.built = build(spec, order=order, override=array_params(spec) if family == "B" else None)
         self.psnap = param_snapshot(self.built)
         self.P = {k: (np.array(float(v)) if family == "B" else v) for k, v in P.items()}
         self.Psnap = {k: float(v) for k, v in P.items()}
@@ -150,12 +152,17 @@ class Session:
                 net.step(init_conditions=self.np_ic[j], engine=env.numpy_engine(), **self.P, **opts)
                 return "np", {kk: np.array(v, dtype=float, copy=True) for kk, v in read_next(self.built).items()}
             eng = self.engines[e]
-            net.step(init_conditions=self.cs_inputs(e, j), engine=eng, **self.P, **opts)
+            if j == 2:
+                net.step(engine=eng, **self.P, **opts)
+            else:
+                net.step(init_conditions=self.cs_inputs(e, j), engine=eng, **self.P, **opts)
             self.last_cs = e
             F = eng.to_function(net, compact=0)
             comp = Compiled(F, self.built)
             # caller symbols carry other names: map positionally through the network's own order
-            vals = valgen.base_vector(self.spec, j)
+            vals = valgen.base_vector(self.spec, j % 2)
+            if j == 2:  # values with negative entries, so that a clamp left over from an earlier step shows
+                vals = {k: ([-x for x in v] if k[1] in ("rho", "v", "w") else list(v)) for k, v in vals.items()}
             args = []
             for i in range(F.n_in()):
                 nm = F.name_in(i)
@@ -194,16 +201,27 @@ class Session:
 _REF = {}
 
 
-def reference(spec, family, op):
-    key = (spec, family, op)
+def reversed_order(spec):
+    """Downstream-first construction: links in reverse order with implicit nodes, so that the network's own
+    enumeration steps a link before the link upstream of it."""
+    return ([("link", i) for i in reversed(range(len(spec.links)))] + [("origin", o.node) for o in spec.origins]
+            + [("dest", d.node) for d in spec.dests])
+
+
+def order_of(name, spec):
+    return reversed_order(spec) if name.endswith("-reversed") else None
+
+
+def reference(spec, family, op, order=None):
+    key = (spec, family, op, None if order is None else tuple(order))
     if key not in _REF:
-        s = Session(spec, family)
+        s = Session(spec, family, order)
         _REF[key] = s.apply(op)
     return _REF[key]
 
 
-def run_history(spec, family, hist, st: Stats):
-    s = Session(spec, family)
+def run_history(spec, family, hist, st: Stats, order=None):
+    s = Session(spec, family, order)
     problems = []
     for i, op in enumerate(hist):
         st.inc("transitions")
@@ -217,7 +235,7 @@ def run_history(spec, family, hist, st: Stats):
             problems.append((f"C12/{inv[0]}", f"after operation {i} {op}: {inv[1]}"))
             return problems
         if obs is not None and op[0] == "step":
-            ref = reference(spec, family, op)
+            ref = reference(spec, family, op, order)
             if obs[0] == "np":
                 for kk, v in ref[1].items():
                     a = obs[1][kk]
@@ -236,16 +254,21 @@ def run_history(spec, family, hist, st: Stats):
     return problems
 
 
+OPS_A_CORE = ([("step", "numpy", j, o) for j in (0, 1) for o in (0, 1)] + [("feedback", 0), ("feedback", 1)]
+              + [("step", "SX", 0, 0), ("step", "SX", 2, 0), ("step", "SX", 2, 1), ("step", "MX", 2, 1), ("tofun", 0)])
+
+
 def worker(item):
     name, spec, family, firsts, length = item
-    ops = OPS_A if family == "A" else OPS_B
+    ops = {"A": OPS_A, "B": OPS_B, "Acore": OPS_A_CORE}[family]
+    family = "A" if family == "Acore" else family
     st = Stats()
     for first in firsts:
         for rest in itertools.product(ops, repeat=length - 1):
             hist = (first,) + rest
             st.inc("states")
             st.inc("executions")
-            problems = run_history(spec, family, hist, st)
+            problems = run_history(spec, family, hist, st, order_of(name, spec))
             st.outcome((name, family, len(problems) == 0))
             if len(st.samples) < 1 and length >= 3 and hist[0][0] == "step" and hist[1][0] != "tofun":
                 st.sample({"network": name, "family": family, "history": hist})
@@ -258,18 +281,23 @@ def worker(item):
 def explore(tier, seed, nproc):
     pal = seed % 3
     H = harness_specs(pal)
-    nets = [(k, H[k]) for k in ("chain", "merge", "bifurcation", "twobytwo")]
-    ka = 3 if tier == "quick" else 4
+    nets = [(k, H[k]) for k in ("chain", "merge", "bifurcation", "twobytwo", "cycle_ramp")]
+    nets += [("chain-reversed", H["chain"]), ("twobytwo-reversed", H["twobytwo"])]
+    # family A: every history over the full alphabet up to ka, plus every history over the core alphabet up to kc
+    ka, kc = (2, 3) if tier == "quick" else (3, 4)
     kb = 4 if tier == "quick" else 5
     items = []
     for name, spec in nets:
         for k in range(1, ka + 1):
             items += [(name, spec, "A", [f], k) for f in OPS_A]
+        for k in range(ka + 1, kc + 1):
+            items += [(name, spec, "Acore", [f], k) for f in OPS_A_CORE]
         for k in range(1, kb + 1):
             items += [(name, spec, "B", [f], k) for f in OPS_B]
     st = run_shards(worker, items, nproc)
     cov = {"networks": [n for n, _ in nets], "palette": pal,
-           "family_A": {"operations": len(OPS_A), "history_length_completed": ka},
+           "family_A": {"operations": len(OPS_A), "history_length_completed": ka,
+                        "core_operations": len(OPS_A_CORE), "core_history_length_completed": kc},
            "family_B_array_parameters": {"operations": len(OPS_B), "history_length_completed": kb},
            "rule": "every history over the operations up to the length, on the same network objects with caller-held inputs; "
                    "invariants checked after every operation, each step compared with the same step on a fresh network"}
@@ -287,7 +315,7 @@ def replay(case):
     spec = NetSpec.from_json(case["spec"])
     st = Stats()
     hist = tuple(_detuple(op) for op in case["history"])
-    problems = run_history(spec, case["family"], hist, st)
+    problems = run_history(spec, case["family"], hist, st, order_of(case["network"], spec))
     lines = [f"network {case['network']} family {case['family']} history:"] + [f"   {op}" for op in hist]
     lines += [f"  {sig}: {msg}" for sig, msg in problems]
     return lines, bool(problems)
